@@ -358,6 +358,15 @@ func genRegCase(rng *rand.Rand) *regCase {
 			// grammatical respelling with extra blanks
 			txt = strings.ReplaceAll(txt, ": ", ":"+strings.Repeat(" ", rng.Intn(3)))
 		}
+		if j := strings.Index(txt, ", capture: "); j >= 0 && rng.Intn(6) == 0 {
+			// the grammar admits an expression as the value of any parameter - also of the capture limit. What such a
+			// route means is not judged (a parameter list outside the four kinds); that the registration accepts it or
+			// fails loudly, and never crashes, is
+			if k := strings.IndexByte(txt[j:], '}'); k > 0 {
+				txt = txt[:j] + ", capture: /" + strings.TrimSpace(txt[j+len(", capture: "):j+k]) + "/" + txt[j+k:]
+				st.Intent = "expression as capture limit"
+			}
+		}
 		st.Route = core.B(txt)
 		if flame {
 			if rng.Intn(4) == 0 && len(txt) > 1 {
